@@ -17,7 +17,7 @@ RULE = ('.debug_frame sections (CIE versions 1/3/4, DWARF32/64, address size 4/8
 N = {'quick': 2000, 'thorough': 150000}
 ASSUMPTIONS = ['advances are >= 1 location unit, set_loc moves forward; CIE initial instructions contain no advance/restore; def_cfa_register/'
                'def_cfa_offset[_sf] only follow a register+offset CFA rule; remember/restore are balanced',
-               'v4 CIE address_size equals the configured default address size (which is what the library uses); no 64-bit .eh_frame entries',
+               'v4 CIE address_size equals the configured default address size (which is what the library uses); in .eh_frame only CIEs may use the extended (64-bit) length: for an extended-length FDE the meaning of the CIE pointer is not agreed on (LSB: relative to the field; binutils 2.40: field+4; the library: field-4) and nothing emits such entries',
                'pointer values are chosen so that pc-relative results stay inside [0, 2^(8*address size)); LEB128-encoded pointers are written with a fixed padded width',
                'a final row that has neither a CFA rule nor any register rule may be omitted by the library; reg_order only needs to contain every register that has a rule in some row',
                'the value of a personality pointer is compared raw (as encoded), its pc-relative/indirect modifiers are not interpreted by the API']
@@ -536,7 +536,7 @@ def build_case(ch, tier, kind=None):
         daf = ch.choice([-8, -4, 8, 3, -3, ch.int(-16, 16)])
         while daf == 0 or abs(daf) == caf:
             daf = daf - 1 if daf <= 0 else daf + 1
-        e = {'t': 'cie', 'fmt': 32 if eh else ch.choice([32, 32, 64]), 'version': ch.choice([1, 3]) if eh else ch.choice([1, 3, 4]),
+        e = {'t': 'cie', 'fmt': ch.choice([32, 32, 32, 64]) if eh else ch.choice([32, 32, 64]), 'version': ch.choice([1, 3]) if eh else ch.choice([1, 3, 4]),
              'aug': ch.choice(AUGS) if eh else b'', 'caf': caf, 'daf': daf, 'rar': ch.choice([0, 16, 30, 127, 128 if ch.bool() else 14, 255]),
              'pad': ch.choice([0, 0, 1, 3, 7])}
         if e['version'] == 1:
@@ -558,7 +558,10 @@ def build_case(ch, tier, kind=None):
     for _ in range(nfde):
         ci = ch.int(0, ncie - 1)
         cie = cies[ci]
-        e = {'t': 'fde', 'fmt': cie['fmt'] if eh else ch.choice([32, 32, 64]), '_cie': ci, 'pad': ch.choice([0, 0, 2, 5])}
+        # .eh_frame: the extended (64-bit) length is a property of each entry; CIEs may carry it, FDEs of either kind of CIE stay 32-bit
+        # (for an extended-length FDE there is no agreed meaning of the CIE pointer: the LSB text says relative to the field, binutils 2.40
+        # computes from field + 4, the library from field - 4; nothing emits such entries - see ASSUMPTIONS)
+        e = {'t': 'fde', 'fmt': 32 if eh else ch.choice([32, 32, 64]), '_cie': ci, 'pad': ch.choice([0, 0, 2, 5])}
         fenc = cie.get('fde_enc', 0) if (eh and cie['aug'][:1] == b'z' and b'R' in cie['aug']) else 0
         lo, hi = ptr_range(A, fenc & 0x0f) if eh else (0, (1 << (8 * A)) - 1)
         hi = min(hi, (1 << (8 * A)) - 1, (1 << 62))
